@@ -34,6 +34,9 @@ const (
 	shMkdirCp
 	shChmodTwo
 	shTwoConds
+	shGrep
+	shNegGrep
+	shGrepCount
 	shNumShapes
 )
 
@@ -100,6 +103,13 @@ func VerifC01Verdict() {
 			sb.WriteString("mkdir d" + strconv.Itoa(i))
 		case shChmodTwo:
 			sb.WriteString("chmod 600 a.txt b.txt")
+		case shGrep:
+			sb.WriteString("grep foo c.txt")
+		case shNegGrep:
+			sb.WriteString("! grep foo c.txt")
+		case shGrepCount:
+			l.cond = rt.IntRange(1, 2)
+			sb.WriteString("grep -count=" + strconv.Itoa(l.cond) + " foo c.txt")
 		case shTwoConds:
 			l.pol0, l.pol1, l.neg = rt.Bool(), rt.Bool(), rt.Bool()
 			pre := "[c0] "
@@ -124,7 +134,10 @@ func VerifC01Verdict() {
 	b := rt.Byte()
 	rt.Assume(a != '\n' && a != '\r' && a != '-')
 	rt.Assume(b != '\n' && b != '\r' && b != '-')
-	script := sb.String() + "-- a.txt --\n" + string([]byte{a}) + "\n-- b.txt --\n" + string([]byte{b}) + "\n"
+	// c.txt: a solver-chosen number of lines matching "foo" among others
+	nfoo := rt.IntRange(0, 3)
+	ctxt := "bar\n" + strings.Repeat("a foo b\n", nfoo) + "baz\n"
+	script := sb.String() + "-- a.txt --\n" + string([]byte{a}) + "\n-- b.txt --\n" + string([]byte{b}) + "\n-- c.txt --\n" + ctxt
 	rt.Observe("script", sb.String())
 	vNewFS([]byte(script))
 
@@ -218,6 +231,13 @@ func VerifC01Verdict() {
 			lineFails = a != b
 		case shNegCmp:
 			lineFails = a == b
+		case shGrep:
+			lineFails = nfoo == 0
+		case shNegGrep:
+			lineFails = nfoo > 0
+		case shGrepCount:
+			// -count=N demands exactly N matches
+			lineFails = nfoo != l.cond
 		case shPhase, shBlank, shExists, shNegExistsMissing, shMkdirCp, shChmodTwo:
 		}
 		if lineFails && verdict != "fail" {
